@@ -21,7 +21,7 @@ package cachedproducer
 //@   forall(n string, has(c.refCounter, n) ==> c.refCounter[n] >= 1)
 //@
 //@ func openDB$1
-//@   requires c != nil && c.refCounter != nil
+//@   requires c != nil && c.refCounter != nil && realClose != nil
 //@   modifies c.refCounter[name], c.opened[name], ncalls[realClose]
 //@   ensures  [over] old(c.refCounter[name]) <= 0 ==> result != nil && ncalls[realClose] == old(ncalls[realClose]) && has(c.opened, name) == old(has(c.opened, name)) && c.refCounter[name] == old(c.refCounter[name]) && has(c.refCounter, name) == old(has(c.refCounter, name))
 //@   ensures  [last] old(c.refCounter[name]) == 1 ==> !has(c.refCounter, name) && !has(c.opened, name) && ncalls[realClose] == old(ncalls[realClose]) + 1
@@ -29,7 +29,7 @@ package cachedproducer
 //@   ensures  [inv] old(cs(c)) ==> cs(c)
 //@
 //@ func openDB$2
-//@   requires c != nil
+//@   requires c != nil && realDrop != nil
 //@   modifies c.notDropped[name], ncalls[realDrop]
 //@   ensures  [once] old(c.notDropped[name]) ==> ncalls[realDrop] == old(ncalls[realDrop]) + 1
 //@   ensures  [never] !old(c.notDropped[name]) ==> ncalls[realDrop] == old(ncalls[realDrop])
